@@ -164,8 +164,9 @@ class C16(Engine):
             w = rng.pick([".if 1", ".ifdef X", ".ifndef X", ".if 0", ".if 0\n.else", ".ifdef X\n.else", ".if 1\n.db 2\n.else", ".ifndef X\n.db 3\n.else"])
             add_line("\n".join([w] * n) + "\n.db 1\n" + "\n".join([".endif"] * (n if rng.chance(2, 3) else n - 1)))
         elif kind == "deep-paren":
-            n = rng.pick([10, 100, 1000, 10000])
-            add_line(".db " + "(" * n + "1" + ")" * (n if rng.chance(2, 3) else n - 1))
+            n = rng.pick([10, 100, 255, 256, 257, 1000, 10000, 100000])
+            add_line(rng.pick([".db ", ".if ", ".if 1 && ", ".org ", ".dw 2 * "]) + "(" * n + "1" + ")" * (n if rng.chance(2, 3) else n - 1) +
+                     ("\n.db 1\n.endif" if rng.chance(1, 2) else ""))
         elif kind == "long-token":
             n = pick_len(rng)
             v = rng.below(12)
